@@ -17,15 +17,19 @@ Theorem C14_set_record_is_exactly_the_supplied_fields : forall h fs vals x,
 Proof. exact construct_set_record. Qed.
 Print Assumptions C14_set_record_is_exactly_the_supplied_fields.
 
+(* the fields an instance holds: those the constructor binds (supplied value, else default) and those kept out of the
+   constructor (init=False) that have a default or factory -- these always hold it, whatever the data says *)
 Theorem C14_fields_not_supplied_take_their_default : forall fs vals fields,
   fill_defaults fs vals = Some fields ->
   Forall2 (fun f nv => fst nv = f_name f /\
-                       snd nv = match field_get (f_name f) vals with
-                                | Some x => x
-                                | None => match default_value f with Some d => d | None => VNone end
-                                end /\
-                       (field_get (f_name f) vals = None -> default_value f <> None))
-          (filter f_init fs) fields.
+                       snd nv = (if f_init f
+                                 then match field_get (f_name f) vals with
+                                      | Some x => x
+                                      | None => match default_value f with Some d => d | None => VNone end
+                                      end
+                                 else match default_value f with Some d => d | None => VNone end) /\
+                       (f_init f = true -> field_get (f_name f) vals = None -> default_value f <> None))
+          (filter held fs) fields.
 Proof. exact fill_defaults_spec. Qed.
 Print Assumptions C14_fields_not_supplied_take_their_default.
 
